@@ -6,7 +6,7 @@ func init() {
 
 // C07: no hidden state from one run to the next.
 func checkC07(c *Check) {
-	c.rule = "MC_History: two scripts (faults inside functions one and two calls deep; faults inside top-level loops) whose path is selected by the object field M in 0..10 - normal, division by zero, panic(), unknown function, argument mismatch, early return from nested loops (top level / in a function / two calls deep), bad index, type mismatch, foreach over a non-container, a run that never ends and is cut off by the deadline after 3000 instructions - run over every sequence of modes of length 2 and (quick: a quarter of) length 3 (thorough: all of length 3 and 4, a fifth of length 5) on ONE evaluator holding a persistent counter, a variable mutated from a large literal and from a float literal; each run is compared with EFSemantics applied to (script, object, variables before the run) AND with a freshly prepared evaluator given those variables through SetVariable: result, host calls, variables, open scopes and number of instructions dispatched must be equal; distinct = distinct (script, mode sequence)"
+	c.rule = "MC_History: two scripts (faults inside functions one and two calls deep; faults inside top-level loops) whose path is selected by the object field M in 0..10 - normal, division by zero, panic(), unknown function, argument mismatch, early return from nested loops (top level / in a function / two calls deep), bad index, type mismatch, foreach over a non-container, a run that never ends and is cut off by the deadline after 3000 instructions - run over every sequence of modes of length 2 and (quick: a quarter of) length 3 (thorough: all of length 3 and 4, a fifth of length 5) on ONE evaluator holding a persistent counter, a variable mutated from a large literal and from a float literal; the host registers its functions again before every run after the first (the new registration must be the one called); each run is compared with EFSemantics applied to (script, object, variables before the run) AND with a freshly prepared evaluator given those variables through SetVariable: result, host calls, variables, open scopes and number of instructions dispatched must be equal; distinct = distinct (script, mode sequence)"
 	c.assumptions = []string{"the deadline is delivered through a context whose Done channel the harness re-arms between runs (the context is set before Prepare)", "instructions dispatched (verif step hook) is the measure of a run's cost"}
 	runRows(c, "MC_History", stdCfg(c.Tier, "HistoryIndependent", "Counts"), func(row *Row) {
 		replayProgRow(c, row, progOpts{freshCompare: true, stepBudget: 3000})
